@@ -272,15 +272,28 @@ def run_changed(chk, fx, prefix="C03"):
                 continue
             cmps = [c for c in walk(n["cond"]) if c["k"] == "OpCall" and c.get("op") in ("!=", "==") and len(c.get("a", [])) == 2 and (c.get("fn") or "").startswith("Opm::")]
             for c in cmps:
-                mems = [x["n"] for a_ in c["a"] for x in walk(a_) if x["k"] == "Mem" and strip(x.get("b") or {"k": "This"})["k"] == "This"]
-                prm = [x["n"] for a_ in c["a"] for x in walk(a_) if x["k"] == "Ref" and x.get("d") == "Parm"]
-                if not mems or not prm:
+                T = c.get("cls") or ""
+                if T in ("Opm::UDAValue", "Opm::time_point") or not T.startswith("Opm::"):
                     continue
-                tgt = {y["n"] for br in (n["then"], n.get("else")) if br is not None for x in walk(br)
-                       if (x["k"] == "Bin" and x.get("asg") and x["op"] == "=") or (x["k"] == "OpCall" and x.get("op") == "=")
-                       for y in walk((x.get("c") or x.get("a"))[0]) if y["k"] == "Mem"}
-                if mems[0] in tgt:
-                    sites.append((f, n, c.get("cls") or "", mems[0]))
+                # the branch that runs when the two values differ
+                neg = False
+                p_ = strip(n["cond"])
+                if p_["k"] == "Un" and p_.get("op") == "!":
+                    neg = True
+                differ_branch = n["then"] if ((c["op"] == "!=") != neg) else n.get("else")
+                if differ_branch is None:
+                    continue
+                installs = False
+                for x in walk(differ_branch):
+                    m_ = meth(x)[0] if x["k"] in ("MCall", "Call") else None
+                    if m_ and (m_.startswith("update") or m_ in ("insert_or_assign", "emplace", "insert")):
+                        installs = True
+                    if (x["k"] == "Bin" and x.get("asg") and x["op"] == "=") or (x["k"] == "OpCall" and x.get("op") == "="):
+                        lhs = (x.get("c") or x.get("a"))[0]
+                        if any(y["k"] == "Mem" for y in walk(lhs)):
+                            installs = True
+                if installs and "/Schedule/" in f["file"]:
+                    sites.append((f, n, T, show(c)[:60]))
     if len(sites) < 10:
         raise core.AnalysisBroken("only %d install-if-different update methods found (Well::update*, Group::updateProduction: 13 on the pinned tree)" % len(sites))
     classes = sorted({T for _, _, T, _ in sites})
